@@ -140,7 +140,7 @@ class ZeroWorld:
                 return 0
             if name == "is_empty" and args and self.is_sized_container(args[0]):
                 return True
-            if name in CMPC and len(args) == 2 and t[1][0] in ("PartialEq", "PartialOrd", "usize", "Ord"):
+            if name in CMPC and len(args) == 2 and t[1][0] in ("PartialEq", "PartialOrd", "usize", "Ord", "ref"):
                 a, b = self.val(args[0], env), self.val(args[1], env)
                 if a is None or b is None:
                     return None
